@@ -107,9 +107,12 @@ func rsaTrailer(hash string) []byte {
 // Only moduli whose bit length is a multiple of 8 are handled (see DESIGN §6.7 scope note).
 func AASignRSA(k *AAKey, rnd []byte, rng *core.Rng) (sig []byte, m1 []byte) {
 	klen := (k.N.BitLen() + 7) / 8
+	// the recoverable message starts with the octet 6A (top bit 0), so the longest octet string that stays below the
+	// modulus has floor(k/8) octets; for k divisible by 8 that is the modulus length
+	flen := k.N.BitLen() / 8
 	tr := rsaTrailer(k.Hash)
 	hlen := len(Hash(k.Hash, nil))
-	m1len := klen - 1 - hlen - len(tr)
+	m1len := flen - 1 - hlen - len(tr)
 	m1 = make([]byte, m1len)
 	switch k.M1Policy {
 	case "zero":
@@ -152,6 +155,13 @@ func (c *Chip) doInternalAuthenticate(cmd CAPDU, viaSM bool, ex *Exchange) ([]by
 	}
 	if len(cmd.Data) != 8 || !cmd.HasLe {
 		return nil, 0x6700
+	}
+	if c.AAFailFirst > 0 {
+		// a chip whose first attempts fail (busy, internal error): the status travels protected, the session stays usable
+		c.AAFailFirst--
+		c.Facts.AAChallenges = append(c.Facts.AAChallenges, bytes.Clone(cmd.Data))
+		ex.Action = "internal-authenticate transient-error"
+		return nil, c.AAFailSW
 	}
 	k := c.P.AA
 	var out []byte
